@@ -196,8 +196,9 @@ def self_check_models():
         for g, b in (("abc", None), ("_a1", None), ("1a", "leading-digit"), ("a b", "illegal-character"), ("", "empty")):
             if m.grammar(g) != b:
                 raise core.HarnessError(f"grammar self-check failed for {lang}: {g!r} -> {m.grammar(g)!r}")
-    if not get_model("py", None).ascii_only:
-        raise core.HarnessError("expected the shipped Python rules to encode all non-ASCII characters")
+    # NOTE: whether the configured rules encode every non-ASCII character is NOT asserted here: a tree whose rules let such
+    # characters through is judged by the grammar / compiler clauses (a change of the rules is a change under test, not a
+    # harness problem).
 
 
 # ---------------------------------------------------------------------------------------------------------------------
